@@ -1931,4 +1931,61 @@ theorem ranges_length {α} (s : Stack) (f : File α) (dead : Bool) (r : List (In
     cases h
     rw [List.length_map]
 
+/-! ## Part IX — Software tag -/
+
+theorem hasSub_iff (pat : List Char) : ∀ l : List Char,
+    hasSub pat l = true ↔ ∃ pre post, l = pre ++ pat ++ post := by
+  intro l
+  induction l with
+  | nil =>
+    unfold hasSub
+    constructor
+    · intro h
+      have : pat = [] := List.isEmpty_iff.mp h
+      exact ⟨[], [], by simp [this]⟩
+    · rintro ⟨pre, post, h⟩
+      have h' := h.symm
+      simp only [List.append_eq_nil_iff] at h'
+      rw [h'.1.2]; rfl
+  | cons c cs ih =>
+    unfold hasSub
+    rw [Bool.or_eq_true, List.isPrefixOf_iff_prefix, ih]
+    constructor
+    · rintro (⟨t, ht⟩ | ⟨pre, post, h⟩)
+      · exact ⟨[], t, by simp [ht]⟩
+      · exact ⟨c :: pre, post, by simp [h]⟩
+    · rintro ⟨pre, post, h⟩
+      cases pre with
+      | nil => left; exact ⟨post, by simpa using h.symm⟩
+      | cons p ps =>
+        right
+        simp only [List.cons_append, List.cons.injEq] at h
+        exact ⟨ps, post, h.2⟩
+
+theorem lower_pylake : ("Pylake v".toList).map lowerAscii = "pylake v".toList := by decide
+
+theorem softwareOut_marked (sw ver : List Char) :
+    hasSub "pylake".toList ((softwareOut sw ver).map lowerAscii) = true := by
+  unfold softwareOut
+  by_cases h : hasSub "pylake".toList (sw.map lowerAscii) = true
+  · rw [if_pos h]; exact h
+  · rw [if_neg h]
+    rw [hasSub_iff]
+    refine ⟨(sw ++ (if sw.length > 0 then ", ".toList else [])).map lowerAscii, " v".toList ++ ver.map lowerAscii, ?_⟩
+    simp only [List.map_append, lower_pylake]
+    simp
+
+theorem softwareOut_idem (sw ver : List Char) : softwareOut (softwareOut sw ver) ver = softwareOut sw ver := by
+  have h := softwareOut_marked sw ver
+  generalize softwareOut sw ver = o at h ⊢
+  unfold softwareOut
+  rw [if_pos h]
+
+theorem softwareOut_prefix (sw ver : List Char) : ∃ t, softwareOut sw ver = sw ++ t := by
+  unfold softwareOut
+  by_cases h : hasSub "pylake".toList (sw.map lowerAscii) = true
+  · rw [if_pos h]; exact ⟨[], by simp⟩
+  · rw [if_neg h]
+    exact ⟨(if sw.length > 0 then ", ".toList else []) ++ "Pylake v".toList ++ ver, by simp only [List.append_assoc]⟩
+
 end Verif.C18
